@@ -406,6 +406,220 @@ theorem quiet_stmt_lazy (st : St) (l x : String) : Quiet st.lis (stmt st ["lazy"
   · exact Quiet.refl _
   · split <;> exact Quiet.refl _
 
+syntax "qt" : tactic
+macro_rules
+  | `(tactic| qt) => `(tactic| repeat' (first
+      | exact quiet_defStmt _ _ _ _
+      | exact quiet_inTxn _ _ (quiet_push _ _)
+      | exact quiet_inTxn _ _ (Quiet.of_eq rfl)
+      | exact quiet_closeTxn' _ _ rfl
+      | exact Quiet.refl _
+      | split
+      | dsimp only))
+
+theorem stmt_holdlazy (st : St) (x s z : String) : stmt st ["holdlazy", x, s, z] =
+    (if !st.fresh x then (st, "skip") else
+    match st.stream s, st.find z with
+    | some s, some (.lazy snap cell) =>
+      let v := snap.orElse fun _ => cell.bind st.sp.val
+      (match v, cell with
+       | some v, _ => defStmt st x (some (.hold s v)) .c
+       | none, some c => defStmt st x (some (.holdz s c)) .c
+       | none, none => ({ st with dead := true }, "PANIC sample-before-loop"))
+    | _, _ => (st, "skip")) := by unfold stmt; rfl
+
+theorem quiet_stmt_holdlazy (st : St) (x s z : String) : Quiet st.lis (stmt st ["holdlazy", x, s, z]).1.lis := by
+  rw [stmt_holdlazy]; qt
+
+theorem stmt_lift2d (st : St) (x a b c op : String) : stmt st ["lift2d", x, a, b, c, op] =
+    (match st.cell c with
+     | some _ => defStmt st x (do pure (.lift2 (← st.cell a) (← st.cell b) (← num op))) .c
+     | none => (st, "skip")) := by unfold stmt; rfl
+
+theorem quiet_stmt_lift2d (st : St) (x a b c op : String) : Quiet st.lis (stmt st ["lift2d", x, a, b, c, op]).1.lis := by
+  rw [stmt_lift2d]; qt
+
+theorem stmt_snapmapc (st : St) (x s c k : String) : stmt st ["snapmapc", x, s, c, k] =
+    (if !st.fresh x then (st, "skip") else
+    (match st.stream s, st.cell c, num k with
+     | some s, some c, some k =>
+       st.inTxn fun st =>
+         let i := st.sp.defs.size
+         let st := st.addDef (x ++ "#1") (.snapshot1 s c) .s
+         st.addDef x (.map i k) .s
+     | _, _, _ => (st, "skip"))) := by unfold stmt; rfl
+
+theorem quiet_stmt_snapmapc (st : St) (x s c k : String) : Quiet st.lis (stmt st ["snapmapc", x, s, c, k]).1.lis := by
+  rw [stmt_snapmapc]; qt
+
+theorem stmt_postsend (st : St) (p s v : String) : stmt st ["postsend", p, s, v] =
+    (if !st.fresh p then (st, "skip") else
+    (match num v, st.find s with
+     | some v, some (.ent i k) =>
+       if k == .ss || k == .cs then
+         let st := st.bind p .post
+         if st.depth > 0 then ({ st with posts := st.posts ++ [.ev i v] }, "ok")
+         else closeTxn { st with posts := st.posts ++ [.ev i v] }
+       else (st, "skip")
+     | _, _ => (st, "skip"))) := by unfold stmt; rfl
+
+theorem quiet_stmt_postsend (st : St) (p s v : String) : Quiet st.lis (stmt st ["postsend", p, s, v]).1.lis := by
+  rw [stmt_postsend]
+  split
+  · exact Quiet.refl _
+  · split
+    · split
+      · dsimp only
+        split
+        · exact Quiet.refl _
+        · exact quiet_closeTxn' _ _ rfl
+      · exact Quiet.refl _
+    · exact Quiet.refl _
+
+theorem stmt_lateloop2 (st : St) (l trig1 trig2 s : String) : stmt st ["lateloop2", l, trig1, trig2, s] =
+    (if !st.fresh l then (st, "skip") else
+    (match st.stream trig1, st.stream trig2, st.stream s with
+     | some t1, some _, some s =>
+       st.inTxn fun st =>
+         let j := st.sp.defs.size
+         let st := st.addDef (l ++ "#n") (.orelse s t1) .s
+         let (st, _, e) := lateEvents st l t1 j
+         let st := { st with lis := st.lis.push { name := l, target := e, isCell := false, regTxn := st.sp.txn, weak := false } }
+         st.bind l .post
+     | _, _, _ => (st, "skip"))) := by unfold stmt; rfl
+
+theorem quiet_stmt_lateloop2 (st : St) (l trig1 trig2 s : String) : Quiet st.lis (stmt st ["lateloop2", l, trig1, trig2, s]).1.lis := by
+  rw [stmt_lateloop2]; qt
+
+theorem stmt_laterouter (st : St) (l trig s sel k : String) : stmt st ["laterouter", l, trig, s, sel, k] =
+    (if !st.fresh l then (st, "skip") else
+    (match st.stream trig, st.stream s, num sel, num k with
+     | some t, some s, some sel, some k =>
+       st.inTxn fun st =>
+         let j := st.sp.defs.size
+         let st := st.addDef (l ++ "#r") (.route s sel k) .s
+         let (st, _, e) := lateEvents st l t j
+         let st := { st with lis := st.lis.push { name := l, target := e, isCell := false, regTxn := st.sp.txn, weak := false } }
+         st.bind l .post
+     | _, _, _, _ => (st, "skip"))) := by unfold stmt; rfl
+
+theorem quiet_stmt_laterouter (st : St) (l trig s sel k : String) : Quiet st.lis (stmt st ["laterouter", l, trig, s, sel, k]).1.lis := by
+  rw [stmt_laterouter]; qt
+
+theorem stmt_routehandler (st : St) (l trig r k : String) : stmt st ["routehandler", l, trig, r, k] =
+    (if !st.fresh l then (st, "skip") else
+    (match st.stream trig, num k, st.find r with
+     | some t, some k, some (.router src sel) =>
+       st.inTxn fun st =>
+         let j := st.sp.defs.size
+         let st := st.addDef (l ++ "#r") (.route src sel k) .s
+         let (st, _, e) := lateEvents st l t j
+         let st := { st with lis := st.lis.push { name := l, target := e, isCell := false, regTxn := st.sp.txn, weak := false } }
+         st.bind l .post
+     | _, _, _ => (st, "skip"))) := by unfold stmt; rfl
+
+theorem quiet_stmt_routehandler (st : St) (l trig r k : String) : Quiet st.lis (stmt st ["routehandler", l, trig, r, k]).1.lis := by
+  rw [stmt_routehandler]; qt
+
+theorem stmt_lateswitchc (st : St) (l trig c : String) : stmt st ["lateswitchc", l, trig, c] =
+    (if !st.fresh l then (st, "skip") else
+    (match st.stream trig, st.cell c with
+     | some t, some c =>
+       st.inTxn fun st =>
+         let j := st.sp.defs.size
+         let st := st.addDef (l ++ "#u") (.updates c) .s
+         let (st, _, e) := lateEvents st l t j
+         let st := { st with lis := st.lis.push { name := l, target := e, isCell := false, regTxn := st.sp.txn, weak := false } }
+         st.bind l .post
+     | _, _ => (st, "skip"))) := by unfold stmt; rfl
+
+theorem quiet_stmt_lateswitchc (st : St) (l trig c : String) : Quiet st.lis (stmt st ["lateswitchc", l, trig, c]).1.lis := by
+  rw [stmt_lateswitchc]; qt
+
+theorem stmt_leafdrop (st : St) (l trig s kind : String) : stmt st ["leafdrop", l, trig, s, kind] =
+    (if !st.fresh l then (st, "skip") else
+    (match st.stream trig, st.stream s, num kind with
+     | some _, some _, some _ => (st.bind l .post, "ok")
+     | _, _, _ => (st, "skip"))) := by unfold stmt; rfl
+
+theorem quiet_stmt_leafdrop (st : St) (l trig s kind : String) : Quiet st.lis (stmt st ["leafdrop", l, trig, s, kind]).1.lis := by
+  rw [stmt_leafdrop]; qt
+
+theorem stmt_router (st : St) (r s sel : String) : stmt st ["router", r, s, sel] =
+    (if !st.fresh r then (st, "skip") else
+    match st.stream s, num sel with
+    | some s, some sel => (st.bind r (.router s sel), "ok")
+    | _, _ => (st, "skip")) := by unfold stmt; rfl
+
+theorem quiet_stmt_router (st : St) (r s sel : String) : Quiet st.lis (stmt st ["router", r, s, sel]).1.lis := by
+  rw [stmt_router]; qt
+
+theorem stmt_route (st : St) (x r k : String) : stmt st ["route", x, r, k] =
+    (if !st.fresh x then (st, "skip") else
+    match num k, st.find r with
+    | some k, some (.router src sel) => (st.addDef x (.route src sel k) .s, "ok")
+    | _, _ => (st, "skip")) := by unfold stmt; rfl
+
+theorem quiet_stmt_route (st : St) (x r k : String) : Quiet st.lis (stmt st ["route", x, r, k]).1.lis := by
+  rw [stmt_route]; qt
+
+theorem stmt_mklazy (st : St) (l x : String) : stmt st ["mklazy", l, x] =
+    (if !st.fresh l then (st, "skip") else
+      match num x with
+      | some k => (st.bind l (.lazy (some k) none), "ok")
+      | none => (st, "skip")) := by unfold stmt; rfl
+
+theorem quiet_stmt_mklazy (st : St) (l x : String) : Quiet st.lis (stmt st ["mklazy", l, x]).1.lis := by
+  rw [stmt_mklazy]; qt
+
+theorem stmt_clonelazy (st : St) (l x : String) : stmt st ["clonelazy", l, x] =
+    (if !st.fresh l then (st, "skip") else
+      match st.find x with
+      | some (.lazy a b) => (st.bind l (.lazy a b), "ok")
+      | _ => (st, "skip")) := by unfold stmt; rfl
+
+theorem quiet_stmt_clonelazy (st : St) (l x : String) : Quiet st.lis (stmt st ["clonelazy", l, x]).1.lis := by
+  rw [stmt_clonelazy]; qt
+
+theorem stmt_post (st : St) (l x : String) : stmt st ["post", l, x] =
+    (if !st.fresh l then (st, "skip") else
+      match st.cell x with
+      | some c =>
+        let st := st.bind l .post
+        if st.depth > 0 then ({ st with posts := st.posts ++ [.samp l c] }, "ok")
+        else (match st.sp.val c with
+              | some v => (st, "ok" ++ showCbs [(l, v)])
+              | none => ({ st with dead := true }, "PANIC sample-before-loop"))
+      | none => (st, "skip")) := by unfold stmt; rfl
+
+theorem quiet_stmt_post (st : St) (l x : String) : Quiet st.lis (stmt st ["post", l, x]).1.lis := by
+  rw [stmt_post]
+  split
+  · exact Quiet.refl _
+  · split
+    · dsimp only
+      split
+      · exact Quiet.refl _
+      · split <;> exact Quiet.refl _
+    · exact Quiet.refl _
+
+theorem stmt_switchnest (st : St) (x c sel : String) (cands : List String) :
+    stmt st ("switchnest" :: x :: c :: sel :: cands) =
+    (if c == sel then (st, "skip") else
+    defStmt st x (do
+      let _ ← st.cell c
+      let sel ← st.cell sel
+      if cands.isEmpty then none else
+      let cs ← streams st cands
+      pure (.switchs sel cs)) .s) := by unfold stmt; rfl
+
+theorem quiet_stmt_switchnest (st : St) (x c sel : String) (cands : List String) :
+    Quiet st.lis (stmt st ("switchnest" :: x :: c :: sel :: cands)).1.lis := by
+  rw [stmt_switchnest]
+  split
+  · exact Quiet.refl _
+  · exact quiet_defStmt _ _ _ _
+
 /-- the statement kinds covered by the lifted theorems (the top-level match of `stmt` is too large for `split`) -/
 inductive Covered : List String → Prop
   | unlisten (l : String) : Covered ["unlisten", l]
@@ -432,6 +646,62 @@ inductive Covered : List String → Prop
   | snapshot (x s c op : String) : Covered ["snapshot", x, s, c, op]
   | switchs (x sel : String) (cands : List String) : Covered ("switchs" :: x :: sel :: cands)
   | switchc (x sel : String) (cands : List String) : Covered ("switchc" :: x :: sel :: cands)
+  | switchnest (x c sel : String) (cands : List String) : Covered ("switchnest" :: x :: c :: sel :: cands)
+  | ssinkc (x op : String) : Covered ["ssinkc", x, op]
+  | const' (x k : String) : Covered ["const", x, k]
+  | never' (x : String) : Covered ["never", x]
+  | mapto (x s k : String) : Covered ["mapto", x, s, k]
+  | filter' (x s k : String) : Covered ["filter", x, s, k]
+  | filteropt (x s k : String) : Covered ["filteropt", x, s, k]
+  | orelse (x a b : String) : Covered ["orelse", x, a, b]
+  | snapshot1 (x s c : String) : Covered ["snapshot1", x, s, c]
+  | gate (x s c : String) : Covered ["gate", x, s, c]
+  | once' (x s : String) : Covered ["once", x, s]
+  | updates (x c : String) : Covered ["updates", x, c]
+  | value' (x c : String) : Covered ["value", x, c]
+  | mapc (x c k : String) : Covered ["mapc", x, c, k]
+  | lift2 (x a b op : String) : Covered ["lift2", x, a, b, op]
+  | accum (x s k op : String) : Covered ["accum", x, s, k, op]
+  | collect' (x s k op : String) : Covered ["collect", x, s, k, op]
+  | defer' (x s : String) : Covered ["defer", x, s]
+  | split' (x s n : String) : Covered ["split", x, s, n]
+  | switchdyn (x sel s op : String) : Covered ["switchdyn", x, sel, s, op]
+  | snaplazy (x s c : String) : Covered ["snaplazy", x, s, c]
+  | sloop (x : String) : Covered ["sloop", x]
+  | cloop (x : String) : Covered ["cloop", x]
+  | snapshotn (x s : String) (cs : List String) : Covered ("snapshotn" :: x :: s :: cs)
+  | liftn (x : String) (cs : List String) : Covered ("liftn" :: x :: cs)
+  | accumlazy (x s z op : String) : Covered ["accumlazy", x, s, z, op]
+  | collectlazy (x s z op : String) : Covered ["collectlazy", x, s, z, op]
+  | routelate (l r k0 k : String) : Covered ["routelate", l, r, k0, k]
+  | lateswitch (l trig s : String) : Covered ["lateswitch", l, trig, s]
+  | latehold (l trig s init : String) : Covered ["latehold", l, trig, s, init]
+  | lateloop (l trig s k : String) : Covered ["lateloop", l, trig, s, k]
+  | latelisten (l s base op : String) : Covered ["latelisten", l, s, base, op]
+  | switchlate (x s base op : String) : Covered ["switchlate", x, s, base, op]
+  | switchlatec (x s base op : String) : Covered ["switchlatec", x, s, base, op]
+  | switchlatecs (x s base op : String) : Covered ["switchlatecs", x, s, base, op]
+  | sloopclose (l s : String) : Covered ["sloopclose", l, s]
+  | cloopclose (l c : String) : Covered ["cloopclose", l, c]
+  | obs'  : Covered ["obs"]
+  | nodes  : Covered ["nodes"]
+  | sendsync  : Covered ["sendsync"]
+  | memcheck  : Covered ["memcheck"]
+  | wfcheck  : Covered ["wfcheck"]
+  | holdlazy (x s z : String) : Covered ["holdlazy", x, s, z]
+  | lift2d (x a b c op : String) : Covered ["lift2d", x, a, b, c, op]
+  | snapmapc (x s c k : String) : Covered ["snapmapc", x, s, c, k]
+  | postsend (p s v : String) : Covered ["postsend", p, s, v]
+  | lateloop2 (l trig1 trig2 s : String) : Covered ["lateloop2", l, trig1, trig2, s]
+  | laterouter (l trig s sel k : String) : Covered ["laterouter", l, trig, s, sel, k]
+  | routehandler (l trig r k : String) : Covered ["routehandler", l, trig, r, k]
+  | lateswitchc (l trig c : String) : Covered ["lateswitchc", l, trig, c]
+  | leafdrop (l trig s kind : String) : Covered ["leafdrop", l, trig, s, kind]
+  | router' (r s sel : String) : Covered ["router", r, s, sel]
+  | route' (x r k : String) : Covered ["route", x, r, k]
+  | mklazy (l x : String) : Covered ["mklazy", l, x]
+  | clonelazy (l x : String) : Covered ["clonelazy", l, x]
+  | post' (l x : String) : Covered ["post", l, x]
 
 set_option maxHeartbeats 4000000 in
 /-- every covered statement only extends the listener array and never re-activates a listener -/
@@ -461,6 +731,62 @@ theorem quiet_stmt (st : St) (ws : List String) (h : Covered ws) : Quiet st.lis 
   case snapshot x s c op => unfold stmt; exact quiet_defStmt _ _ _ _
   case switchs x sel cands => unfold stmt; exact quiet_defStmt _ _ _ _
   case switchc x sel cands => unfold stmt; exact quiet_defStmt _ _ _ _
+  case switchnest x c sel cands => exact quiet_stmt_switchnest _ _ _ _ _
+  case ssinkc x op => unfold stmt; exact quiet_defStmt _ _ _ _
+  case const' x k => unfold stmt; exact quiet_defStmt _ _ _ _
+  case never' x => unfold stmt; exact quiet_defStmt _ _ _ _
+  case mapto x s k => unfold stmt; exact quiet_defStmt _ _ _ _
+  case filter' x s k => unfold stmt; exact quiet_defStmt _ _ _ _
+  case filteropt x s k => unfold stmt; exact quiet_defStmt _ _ _ _
+  case orelse x a b => unfold stmt; exact quiet_defStmt _ _ _ _
+  case snapshot1 x s c => unfold stmt; exact quiet_defStmt _ _ _ _
+  case gate x s c => unfold stmt; exact quiet_defStmt _ _ _ _
+  case once' x s => unfold stmt; exact quiet_defStmt _ _ _ _
+  case updates x c => unfold stmt; exact quiet_defStmt _ _ _ _
+  case value' x c => unfold stmt; exact quiet_defStmt _ _ _ _
+  case mapc x c k => unfold stmt; exact quiet_defStmt _ _ _ _
+  case lift2 x a b op => unfold stmt; exact quiet_defStmt _ _ _ _
+  case accum x s k op => unfold stmt; exact quiet_defStmt _ _ _ _
+  case collect' x s k op => unfold stmt; exact quiet_defStmt _ _ _ _
+  case defer' x s => unfold stmt; exact quiet_defStmt _ _ _ _
+  case split' x s n => unfold stmt; exact quiet_defStmt _ _ _ _
+  case switchdyn x sel s op => unfold stmt; exact quiet_defStmt _ _ _ _
+  case snaplazy x s c => unfold stmt; exact quiet_defStmt _ _ _ _
+  case sloop x => unfold stmt; exact quiet_defStmt _ _ _ _
+  case cloop x => unfold stmt; exact quiet_defStmt _ _ _ _
+  case snapshotn x s cs => unfold stmt; exact quiet_defStmt _ _ _ _
+  case liftn x cs => unfold stmt; exact quiet_defStmt _ _ _ _
+  case accumlazy x s z op => unfold stmt; exact quiet_lazyFoldStmt _ _ _ _ _ _
+  case collectlazy x s z op => unfold stmt; exact quiet_lazyFoldStmt _ _ _ _ _ _
+  case routelate l r k0 k => unfold stmt; exact quiet_routeLateStmt _ _ _ _ _
+  case lateswitch l trig s => unfold stmt; exact quiet_handlerListenStmt _ _ _ _
+  case latehold l trig s init => unfold stmt; exact quiet_lateHoldStmt _ _ _ _ _
+  case lateloop l trig s k => unfold stmt; exact quiet_lateLoopStmt _ _ _ _ _
+  case latelisten l s base op => unfold stmt; exact quiet_lateListenStmt _ _ _ _ _
+  case switchlate x s base op => unfold stmt; exact quiet_switchLateStmt _ _ _ _ _
+  case switchlatec x s base op => unfold stmt; exact quiet_switchLateCStmt _ _ _ _ _
+  case switchlatecs x s base op => unfold stmt; exact quiet_switchLateCStmt _ _ _ _ _
+  case sloopclose l s => unfold stmt; exact quiet_sloopCloseStmt _ _ _
+  case cloopclose l c => unfold stmt; exact quiet_cloopCloseStmt _ _ _
+  case obs'  => unfold stmt; exact Quiet.refl _
+  case nodes  => unfold stmt; exact Quiet.refl _
+  case sendsync  => unfold stmt; exact Quiet.refl _
+  case memcheck  => unfold stmt; exact Quiet.refl _
+  case wfcheck  => unfold stmt; exact Quiet.refl _
+  case holdlazy x s z => exact quiet_stmt_holdlazy _ _ _ _
+  case lift2d x a b c op => exact quiet_stmt_lift2d _ _ _ _ _ _
+  case snapmapc x s c k => exact quiet_stmt_snapmapc _ _ _ _ _
+  case postsend p s v => exact quiet_stmt_postsend _ _ _ _
+  case lateloop2 l trig1 trig2 s => exact quiet_stmt_lateloop2 _ _ _ _ _
+  case laterouter l trig s sel k => exact quiet_stmt_laterouter _ _ _ _ _ _
+  case routehandler l trig r k => exact quiet_stmt_routehandler _ _ _ _ _
+  case lateswitchc l trig c => exact quiet_stmt_lateswitchc _ _ _ _
+  case leafdrop l trig s kind => exact quiet_stmt_leafdrop _ _ _ _ _
+  case router' r s sel => exact quiet_stmt_router _ _ _ _
+  case route' x r k => exact quiet_stmt_route _ _ _ _
+  case mklazy l x => exact quiet_stmt_mklazy _ _ _
+  case clonelazy l x => exact quiet_stmt_clonelazy _ _ _
+  case post' l x => exact quiet_stmt_post _ _ _
 
 /-- one line of a script: a covered statement, `begin`, or `end` (inner, or outermost: the transaction closes) -/
 inductive Step : St → St → Prop
